@@ -147,8 +147,9 @@ fn check_against_model(input: &[(Addr, Status)], output: &[(Addr, Status)], keep
         return Verdict::Bad("non-empty path set emptied".into());
     }
     if n_non_relay < THRESHOLD {
-        // below the threshold nothing is pruned
-        return if removed.is_empty() { Verdict::Ok } else { Verdict::Bad(format!("{} paths removed with only {n_non_relay} non-relay paths", removed.len())) };
+        // Below the threshold the statement makes no demand beyond the safety clauses checked above (no open /
+        // unknown / relay path removed, never emptied): a check must not demand more than the statement.
+        return Verdict::Ok;
     }
     let all_failed = input.iter().all(|(_, s)| matches!(s, Status::Unusable));
     if all_failed {
@@ -281,7 +282,7 @@ fn main() {
     let ctx = Ctx::from_args("C23", Level::Exploration);
     let max_total = ctx.pick(34usize, 60usize);
     ctx.set_rule("every count vector (open, unknown, unusable, inactive, relay) with total <= bound (every relay count while total <= 36; relay counts {0,1,2,3,4,10,30} above); x close-time pattern of the inactive paths {distinct permuted, all equal, pairwise equal} (when >= 2 inactive) x relay status pattern {all open, all unusable, cycling open/inactive-older-than-all/unusable/unknown} (when >= 1 relay); non-relay addresses cycle IPv4/IPv6/custom; each case = one call of the real prune_non_relay_paths on a freshly built map; distinct = distinct (model class, outcome) pairs");
-    ctx.assume("below 30 non-relay paths pruning removes nothing (the statement conditions every removal on '>= 30 non-relay paths')");
+    ctx.assume("below 30 non-relay paths only the safety clauses are demanded (nothing open/unknown/relay removed, never emptied): the statement conditions its removal clauses on '>= 30 non-relay paths'");
     ctx.assume("'every path has failed' with relay paths of status Unusable present is ambiguous in the statement: relay-only, 30-in-total and 30-non-relay results are all accepted");
     ctx.assume("equal close times: any choice among equally recent paths is accepted");
     ctx.bound("max_total_paths", max_total);
